@@ -10,8 +10,10 @@ and a final `S` summary line plus `T` tag-histogram lines.
 open Grol
 
 def suites : List (String × (String → String → CaseResult)) :=
-  [ ("trie", TrieSuite.runCase),
-    ("eval", EvalSuite.runCase) ]
+  [("trie", TrieSuite.runCase)] ++
+  [("eval", EvalSuite.runCase)] ++
+  [("lex", LexSuite.runCase)] ++
+  []
 
 structure DAcc where
   cases : Nat := 0
